@@ -717,3 +717,335 @@ def enc_wb(ex):
 
 def describe(wb):
     return json.dumps(wb, ensure_ascii=False)
+
+
+def enc_ops_wb(wb, ex):
+    w = enc_wb(ex)
+    return "(106 3 (" + " ".join("(7 " + w + ")" if o == "P" else "(5)" for o in wb["ops"]) + "))"
+
+
+def compare_trace(ops_kinds, res, snaps, mstop, explicit):
+    """ops_kinds: per operation 'new' (a new container starts: invented uuids are unrelated to earlier ones),
+    'render' or 'other'.  -> None or (what, model, impl)"""
+    import c06
+    istop = res["stop"]
+    if istop is not None and istop[0] < 0:
+        return ("the implementation could not even read the content index", "-", repr(istop))
+    ist = None if istop is None else (istop[0], istop[1])
+    if (mstop is None) != (ist is None) or (mstop is not None and (mstop[0] != ist[0] or mstop[1] != ist[1])):
+        return ("where/how the history stops", repr(mstop), repr(istop))
+    if len(snaps) != len(res["renders"]):
+        return ("number of successful renders", len(snaps), len(res["renders"]))
+    fresh_of, inv_of = {}, {}
+    si = 0
+    for oi, kind in enumerate(ops_kinds):
+        if istop is not None and oi >= istop[0]:
+            break
+        if kind == "new":
+            fresh_of, inv_of = {}, {}
+        if kind != "render":
+            continue
+        (mocc, vis), doc = snaps[si], res["renders"][si]
+        si += 1
+        m = [o for o, v in zip(mocc, vis) if v]
+        im = c06.occs_in_order(doc)
+        if [(k, n) for k, n, _ in m] != [(k, n) for k, n, _ in im]:
+            return (f"render #{si}: occurrence names", repr([(k, n) for k, n, _ in m]), repr([(k, n) for k, n, _ in im]))
+        for (k, n, mu), (_, _, iu) in zip(m, im):
+            if mu is None:
+                ok = iu is None
+            elif mu[0] == "given":
+                ok = iu == mu[1]
+            else:
+                ok = isinstance(iu, str) and iu not in explicit and fresh_of.setdefault(mu[1], iu) == iu \
+                    and inv_of.setdefault(iu, mu[1]) == mu[1] and len(iu) == 36
+            if not ok:
+                return (f"render #{si}: uuid of {k} {n!r}", repr(mu), repr(iu))
+    return None
+
+
+# ------------------------------------------------------------------------------ FlowParser-level histories
+# One long-lived RapidProContainer; the flow sheets of the workbook are parsed INTO it one after the other with
+# FlowParser(container, name, table, context, content_index_parser).parse() (the API the tests use), mixed with
+# record_group_uuid / record_flow_uuid / add_campaign / add_trigger / render.
+def instantiations(wb):
+    """[(flow name, sheet, data row id | None)] in content-index order"""
+    out = []
+    for fd in wb["flow_defs"]:
+        base = fd["new_name"] or fd["sheet"]
+        if fd["data"] is None:
+            out.append((base, fd["sheet"], None))
+        else:
+            rows = wb["data_rows"] if fd["data"] == "all" else [r for r in wb["data_rows"] if r["ID"] == fd["data"]]
+            out += [(f"{base} - {r['ID']}", fd["sheet"], r["ID"]) for r in rows]
+    return out
+
+
+def gen_hist(rng, wb):
+    """-> list of operations on one container"""
+    malformed = wb["malformed"]
+    insts = []
+    for i, inst in enumerate(instantiations(wb)):
+        if inst[0] not in [x[1] for x in insts]:
+            insts.append(["pf", inst[0], i])
+    pre = []
+    for _ in range(rng.choice([0, 0, 1, 2])):
+        if rng.random() < 0.5:
+            n = rng.choice(wb["groups"])
+            pre.append(["rg", n, rng.choice([designated("G", n), "", None] + (UPOOL if malformed else []))])
+        else:
+            n = rng.choice(EXT_FLOWS)
+            pre.append(["rf", n, rng.choice([designated("F", n), "", None] + (UPOOL if malformed else []))])
+    body = pre + insts + [["ac", i] for i in range(len(wb["campaigns"]))]
+    rng.shuffle(body)
+    trig_ops = [["at", i] for i in range(len(wb["triggers"]))]
+    if malformed:
+        for t in trig_ops:
+            body.insert(rng.randint(0, len(body)), t)
+    else:
+        body += trig_ops
+    n_render = rng.choice([1, 2, 2, 3])
+    cut = sorted(rng.randint(0, len(body)) for _ in range(n_render - 1))
+    ops, prev = [], 0
+    for c in cut:
+        ops += body[prev:c] + [["render"]]
+        prev = c
+    ops += body[prev:] + [["render"]]
+    if rng.random() < 0.4:
+        ops.append(["render"])
+    return ops
+
+
+def run_impl_hist(wb, ops):
+    from rpft.parsers.creation.flowparser import FlowParser
+    from rpft.rapidpro.models.containers import RapidProContainer
+    readers = render_sheets(wb)
+    res = dict(renders=[], stop=None, flow_uuids={})
+    r = run_cli_mode(make_parser, readers, False)
+    if r[0] != "ok":
+        res["stop"] = (-1, r[1], r[2])
+        return res
+    cip, _ = r[1]
+    cont = RapidProContainer()
+    insts = instantiations(wb)
+    trigs = None
+
+    def parse_flow(name, sheet, rid):
+        ts = cip.get_template_sheet(sheet)
+        ctx = dict(cip.get_data_sheet_row("ds1", rid)) if rid else {}
+        ctx = cip.map_template_arguments_to_context(ts.argument_definitions, [], ctx)
+        flow = FlowParser(cont, name, ts.table, context=ctx, content_index_parser=cip).parse()
+        return flow.uuid
+
+    for i, o in enumerate(ops):
+        if o[0] == "pf":
+            r = run_cli_mode(parse_flow, *insts[o[2]])
+            if r[0] == "ok":
+                res["flow_uuids"][o[1]] = r[1]
+        elif o[0] == "rg":
+            r = run_cli_mode(cont.record_group_uuid, o[1], o[2])
+        elif o[0] == "rf":
+            r = run_cli_mode(cont.record_flow_uuid, o[1], o[2])
+        elif o[0] == "ac":
+            name = wb["campaigns"][o[1]]["name"]
+            r = run_cli_mode(lambda: cont.add_campaign(cip.campaign_parsers[name][1].parse()))
+        elif o[0] == "at":
+            def add_trigger(j=o[1]):
+                nonlocal trigs
+                if trigs is None:
+                    trigs = [t for _, tp in cip.trigger_parsers.values() for t in tp.parse()]
+                cont.add_trigger(trigs[j])
+            r = run_cli_mode(add_trigger)
+        else:
+            r = run_cli_mode(cont.render)
+            if r[0] == "ok":
+                res["renders"].append(copy.deepcopy(r[1]))
+        if r[0] != "ok":
+            res["stop"] = (i, r[1], r[2])
+            break
+    return res
+
+
+def enc_ops_hist(wb, ex, ops):
+    import c06
+    out = []
+    for o in ops:
+        if o[0] == "pf":
+            name, its = ex["flows"][o[2]]
+            out.append("(6 (" + enc_str(name) + " " + c06.enc_l(enc_item(x) for x in its) + "))")
+        elif o[0] == "rg":
+            out.append("(0 " + enc_str(o[1]) + " " + c06.enc_u(o[2]) + ")")
+        elif o[0] == "rf":
+            out.append("(1 " + enc_str(o[1]) + " " + c06.enc_u(o[2]) + ")")
+        elif o[0] == "ac":
+            c = ex["campaigns"][o[1]]
+            out.append("(3 " + c06.enc_campaign({"events": [{"type": e["type"], "flow": [e["flow"], None]} for e in c["events"]],
+                                                "group": [c["group"], None]}) + ")")
+        elif o[0] == "at":
+            t = ex["triggers"][o[1]]
+            out.append("(4 " + c06.enc_trigger({"flow": [t["flow"], None], "groups": [[g, None] for g in t["groups"]],
+                                               "exclude": [[g, None] for g in t["exclude"]]}) + ")")
+        else:
+            out.append("(5)")
+    return "(106 3 (" + " ".join(out) + "))"
+
+
+def oracle_hist(wb, ops, res, ex=None):
+    """the property along a history on ONE container -> list of (key, summary)"""
+    bad = []
+    ex = ex or expand(wb)
+    src = {}            # (kind, name) -> {uuid: [(what, route, in_block)]}
+    flows_known = set()
+    defined = {}
+    triggers = []
+    stop = res["stop"]
+    if stop is not None and stop[0] < 0:
+        return bad
+    ri = 0
+    prev_doc, prev_bind = None, {}
+
+    def note(k, n, u, d):
+        if u:
+            src.setdefault((k, n), {}).setdefault(u, []).append(d)
+
+    for i, o in enumerate(ops):
+        if stop is not None and stop[0] == i:
+            return bad               # an error is a rejection: nothing more to observe
+        if o[0] == "rg":
+            note("G", o[1], o[2], ("record_group_uuid", "api", False))
+        elif o[0] == "rf":
+            note("F", o[1], o[2], ("record_flow_uuid", "api", False))
+            flows_known.add(o[1])
+        elif o[0] == "pf":
+            name, its = ex["flows"][o[2]]
+            defined[name] = res["flow_uuids"].get(name)
+            note("F", name, defined[name], ("flow definition", "api", False))
+            flows_known.add(name)
+            for it in all_rows(its):
+                _, ty, n, oid, _, in_block, route = it
+                if ty in KIND_OF_ROW:
+                    note(KIND_OF_ROW[ty], n, oid, (ty, route, in_block))
+                if ty == "start_new_flow":
+                    flows_known.add(n)
+        elif o[0] == "ac":
+            for e in ex["campaigns"][o[1]]["events"]:
+                flows_known.add(e["flow"])
+        elif o[0] == "at":
+            triggers.append(ex["triggers"][o[1]])
+        if o[0] != "render":
+            prev_doc = None
+            continue
+        doc = res["renders"][ri]
+        ri += 1
+        label = f"render #{ri}"
+        bind = doc_bindings(doc, bad, label)
+        conflicts = {kn: us for kn, us in src.items() if len(us) > 1}
+        for (k, n), us in src.items():
+            if (k, n) in conflicts:
+                continue
+            u = next(iter(us))
+            if (k, n) in bind and bind[(k, n)] != u:
+                bad.append((lost_key("sheet-explicit-overridden", us[u]),
+                            f"{label}: {k} {n!r} was given the uuid {u!r} ({sorted(set((t, r) for t, r, _ in us[u]))}) "
+                            f"but the container renders {bind[(k, n)]!r}"))
+        for (k, n), us in conflicts.items():
+            b = bind.get((k, n))
+            lost = [s for u, ss in us.items() if u != b for s in ss]
+            bad.append((lost_key("sheet-conflict-accepted", lost),
+                        f"{label} succeeded although {k} {n!r} was given the uuids {sorted(us)} "
+                        f"(rendered: {b!r}; ignored: {sorted(set((t, r) for t, r, _ in lost))})"))
+        unk = [t["flow"] for t in triggers if t["flow"] not in flows_known]
+        if unk:
+            bad.append(("unknown-trigger-flow-accepted", f"{label} succeeded although a trigger names flow {unk[0]!r}, "
+                        "which nothing parsed or recorded so far mentions"))
+        for key, u in prev_bind.items():
+            if key in bind and bind[key] != u:
+                bad.append(("uuid-changed-between-renders", f"{label}: {key[0]} {key[1]!r} had {u!r}, now {bind[key]!r}"))
+        if prev_doc is not None and prev_doc != doc:
+            bad.append(("render-not-idempotent", f"{label} differs from the render before it with no operation in between"))
+        prev_bind.update(bind)
+        prev_doc = doc
+        for (k, n), u in bind.items():
+            if u and not ((k, n) in src and u in src[(k, n)]):
+                # what a render bound is explicit for everything that follows
+                if (k, n) not in src:
+                    src.setdefault((k, n), {}).setdefault(u, []).append(("rendered", "api", False))
+        for t in triggers:
+            flows_known.add(t["flow"])
+    return bad
+
+
+# ------------------------------------------------------------------------------ directed workbooks
+ROUTES = ["sheet", "begin_block", "for", "data", "insert", "insert-nested", "insert-data", "insert-arg", "insert-in-for"]
+
+
+def directed_wbs():
+    """every reference row type x every route by which a row reaches a FlowParser x (the obj_id is the only explicit
+    uuid of its name | another sheet gives the same name another uuid)"""
+    out = []
+    plain = {"t": "row", "type": "send_message", "name": "x", "obj_id": "", "include": ""}
+    for ty in REF_ROW_TYPES:
+        kind = KIND_OF_ROW[ty]
+        name = "g1" if kind == "G" else "ext1"
+        u = designated(kind, name)
+        for route in ROUTES:
+            if route == "insert-arg" and kind != "G":
+                continue
+            for mode in ("only", "conflict"):
+                templ = route in ("data", "insert-data")
+                nm = ("{{grp}}" if kind == "G" else "{{flw}}") if templ else "{{ga}}" if route == "insert-arg" else name
+                oid = ("{{gid}}" if kind == "G" else "{{fid}}") if templ else u
+                if ty == "split_by_group":
+                    item = {"t": "split", "name": nm, "obj_id": oid, "children": [[nm, dict(plain)]]}
+                else:
+                    item = {"t": "row", "type": ty, "name": nm, "obj_id": oid, "include": ""}
+                wb = {"malformed": mode == "conflict", "groups": ["g1"], "blocks": {}, "flows": {}, "campaigns": [], "triggers": [],
+                      "data_rows": [{"ID": "r1", "grp": "g1", "gid": designated("G", "g1"), "flw": "ext1", "fid": designated("F", "ext1")}]
+                      if templ else [],
+                      "flow_defs": [{"sheet": "fa", "data": "r1" if route == "data" else None, "new_name": ""},
+                                    {"sheet": "fb", "data": None, "new_name": ""}],
+                      "two_readers": False, "via_files": False, "ops": ["P", "R", "R"], "directed": f"{ty}/{route}/{mode}"}
+                if route in ("sheet", "data"):
+                    fa = [item]
+                elif route == "begin_block":
+                    fa = [{"t": "group", "items": [item]}]
+                elif route == "for":
+                    fa = [{"t": "for", "var": "x", "values": ["1", "2"], "items": [item]}]
+                else:
+                    ins = {"t": "insert", "block": "blk1", "data": "r1" if route == "insert-data" else None,
+                           "args": ["g1"] if route == "insert-arg" else []}
+                    fa = [{"t": "for", "var": "x", "values": ["1", "2"], "items": [ins]}] if route == "insert-in-for" else [ins]
+                    if route == "insert-nested":
+                        wb["blocks"]["blk1"] = {"needs_data": False, "items": [{"t": "insert", "block": "blk2", "data": None, "args": []}]}
+                        wb["blocks"]["blk2"] = {"needs_data": False, "items": [item]}
+                    else:
+                        wb["blocks"]["blk1"] = {"needs_data": route == "insert-data", "items": [item]}
+                wb["flows"]["fa"] = fa
+                other = "OTHER-id" if mode == "conflict" else ""
+                if kind == "G":
+                    wb["flows"]["fb"] = [{"t": "row", "type": "remove_from_group" if ty == "add_to_group" else "add_to_group",
+                                          "name": "g1", "obj_id": other, "include": ""},
+                                         {"t": "split", "name": "g1", "obj_id": "", "children": [["g1", dict(plain)]]}]
+                    wb["campaigns"] = [{"name": "camp1", "group": "g1", "events": [{"type": "F", "flow": "fa"}]}]
+                    wb["triggers"] = [{"flow": "fa", "groups": ["g1"], "exclude": ["g1"]}]
+                else:
+                    wb["flows"]["fb"] = [{"t": "row", "type": "start_new_flow", "name": "ext1", "obj_id": other, "include": ""}]
+                    wb["campaigns"] = [{"name": "camp1", "group": "g1", "events": [{"type": "F", "flow": "ext1"}]}]
+                    wb["triggers"] = [{"flow": "ext1", "groups": [], "exclude": []}]
+                out.append(wb)
+    return out
+
+
+def route_class(route, in_block):
+    """coarse label of a route for the statistics"""
+    parts = [p for p in route.split("/")]
+    lab = "block" if in_block else "sheet"
+    if "sheet+data" in parts:
+        lab += "+data"
+    if "for" in parts:
+        lab += "+for"
+    if "begin_block" in parts:
+        lab += "+begin_block"
+    if parts.count("insert") > 1:
+        lab += "+nested"
+    return lab
